@@ -44,11 +44,13 @@ func Harness_C13_GenesisInit() {
 	verifAssume(types.ValidateGenesis(gs, k.authKeeper.AddressCodec()) == nil)
 	// operator addresses are valid and pairwise distinct, powers are non-negative (what a genesis file written by
 	// the chain's own tooling contains; ValidateGenesis itself checks key uniqueness only)
+	ops := make([][]byte, len(gs.Validators))
 	for i, v := range gs.Validators {
-		_, err := k.validatorAddressCodec.StringToBytes(v.OperatorAddress)
+		op, err := k.validatorAddressCodec.StringToBytes(v.OperatorAddress)
 		verifAssume(err == nil && v.ConsPower >= 0)
+		ops[i] = op
 		for j := 0; j < i; j++ {
-			verifAssume(gs.Validators[j].OperatorAddress != v.OperatorAddress)
+			verifAssume(string(ops[j]) != string(op)) // distinct addresses, whatever their spelling
 		}
 	}
 	var ups []abciUpdate
